@@ -552,7 +552,7 @@ def gen_case(rng, variant, op, sig, p, thr, big):
     if sp is not None:
         return (variant, op, p, sp)
     if variant.endswith(".Dzero"):
-        return (variant, op, p, [[0], rng.choice([0, 1, p - 1, rng.below(p)])])
+        return (variant, op, p, [[0], rng.choice([1, p - 1, 1 + rng.below(p - 1)])])
     heavy = op in ("gcd", "gcdext", "invmod", "invmodunit", "lcm", "powmod", "pow", "pdivmod", "pmod")
     n1 = sizes_for(rng, thr, big and not heavy)
     n2 = sizes_for(rng, thr, big and not heavy)
@@ -667,6 +667,8 @@ def unnormalised_cases(rng, per, fields):
                     args[i] = list(args[i]) + [0] * rng.choice([1, 1, 2, 3])
             if rng.chance(1, 6):
                 args[pos[0]] = [0] * rng.choice([1, 2])       # unnormalised zero (e.g. the domain's `zero` member is [0])
+                if op in ("add_s", "sub_s") and args[1] % p == 0:
+                    args[1] = 1                               # 0 + 0: the out-of-bounds write of the unrepaired code would go unseen
             if op in ("div", "divmod", "divmodin", "mod", "modin", "pdivmod", "pmod") and not norm(args[1]):
                 args[1] = [1, 1] + ([0] if op != "modin" else [])
             if op == "powmod" and not norm(args[2]):
@@ -926,7 +928,11 @@ def run_stream(chk, label, bins, tag, drv, cases, kthr, sthr, stats):
                 chk.fail_input("Poly1Dom::" + op, "leading-zero-in-result", case, "normal form", iout[i][:2000])
                 continue
             stats["lazy_unnormalised"][op] = stats["lazy_unnormalised"].get(op, 0) + 1
-        if mout is not None and i in mout:
+        if ("Poly1Dom::" + op, klass) in stats["known_classes"]:
+            # the input lies in the class of a listed, not yet repaired defect and the output happens to satisfy the
+            # specification (e.g. remainder 0, lc(B)^k = 1): the model follows the repaired code, no correspondence verdict
+            stats["in_known_defect_class_oracle_only"] += 1
+        elif mout is not None and i in mout:
             stats["corr"] += 1
             if mout[i].split() != out:
                 chk.broke("correspondence model/implementation differs [%s] %s %s p=%d kthr=%d sthr=%d args=%s: model=%s impl=%s"
@@ -963,7 +969,10 @@ def main(tier, replay=None):
     if kth is None or sth is None:
         chk.broke("cannot read KARA_THRESHOLD / SQR_THRESHOLD from givpoly1kara.inl")
         kth, sth = kth or 50, sth or 50
-    stats = {"by_op": {}, "by_variant": {}, "by_field": {}, "by_size": {}, "corr": 0, "lazy_unnormalised": {}, "oracle_only": 0}
+    stats = {"by_op": {}, "by_variant": {}, "by_field": {}, "by_size": {}, "corr": 0, "lazy_unnormalised": {}, "oracle_only": 0,
+             "in_known_defect_class_oracle_only": 0,
+             "known_classes": set((k.get("site"), k.get("klass")) for k in vf.load_known()
+                                  if k.get("property") == "C08" and k.get("status") == "known")}
     # 3. call forms that must at least instantiate
     have = {}
     for nm, body, site, flag in PROBES:
@@ -1017,6 +1026,7 @@ def main(tier, replay=None):
                        "distinct = (variant,field,p,operands)")
     chk.cov["traces_validated_against_impl"] = stats["corr"]
     chk.cov["cases_judged_by_oracle_only_no_model"] = stats["oracle_only"]
+    chk.cov["cases_in_a_known_defect_class_judged_by_oracle_only"] = stats["in_known_defect_class_oracle_only"]
     chk.cov["variants"] = len(VARIANTS)
     chk.cov["thresholds_from_source"] = [kth, sth]
     chk.cov["distribution_by_op"] = stats["by_op"]
